@@ -612,6 +612,9 @@ fn run_repo(cfg_seed: u64, idx: u64, steps: usize, stream: u64) -> Vec<Rec> {
             if lost.is_empty() {
                 rec.oracle_ok += 1;
             } else {
+                // `unguarded-wc:new-on` / `:edit` are known findings (maybe_abandon_wc_commit);
+                // `unguarded-wc:commit` is the signature of the finding repaired by /repo edbccd1 —
+                // kept so that the defect, should it return, is reported under its old name (a VIOLATION)
                 let below_wc = descendants(&state, &wc.commit);
                 let sig = if matches!(kind, "commit" | "new-on" | "edit") && lost.iter().all(|c| below_wc.contains(&c.commit)) {
                     format!("unguarded-wc:{kind}")
@@ -662,16 +665,24 @@ fn run_repo(cfg_seed: u64, idx: u64, steps: usize, stream: u64) -> Vec<Rec> {
     recs
 }
 
-/// The realistic reproducer of the unguarded `jj commit` (default configuration, two workspaces).
-fn two_workspace_scenario(seed: u64) -> Rec {
-    let mut rec = Rec::new(None, String::new());
+/// The realistic reproducer of the formerly unguarded `jj commit` (finding `unguarded-wc:commit`,
+/// repaired by /repo edbccd1): default configuration, two workspaces; the main workspace tags the
+/// secondary workspace's `@`, which makes it immutable, then `jj commit -m y` runs in the secondary
+/// workspace.  Two request/answer pairs through the ordinary `run` protocol:
+///   1. `jj commit -m y`                      — the model says `rejected`; the tagged commit must stay;
+///   2. `jj commit -m z --ignore-immutable`   — the model says `ok rw=<@> ab=-`.
+/// Oracle (property text): after step 1 every commit of `immutable()` is still visible with the same
+/// commit id (in particular the tagged `@`); if the defect returns this fails with the old signature.
+fn two_workspace_scenario(seed: u64) -> Vec<Rec> {
+    let mut recs = vec![];
     let mut env = Env::new("c42w", seed.wrapping_add(77));
     let root = env.root.clone();
     let run = |env: &mut Env, cwd: &Path, args: &[&str]| -> Result<Res, String> {
         let r = env.jj(cwd, args);
         if r.code != 0 { Err(format!("jj {args:?}: {}", r.err)) } else { Ok(r) }
     };
-    let r: Result<(), String> = (|| {
+    const EXPR: &str = "builtin_immutable_heads()";
+    let w2dir: Result<PathBuf, String> = (|| {
         run(&mut env, &root, &["git", "init", "r"])?;
         let main = root.join("r");
         std::fs::write(main.join("a"), "a\n").unwrap();
@@ -682,34 +693,111 @@ fn two_workspace_scenario(seed: u64) -> Rec {
         run(&mut env, &w2, &["status"])?;
         // another workspace tags w2's working-copy commit: it is now immutable under the default configuration
         run(&mut env, &main, &["tag", "set", "v1", "-r", "w2@"])?;
-        let t = r#"commit_id ++ " " ++ immutable ++ "\n""#;
-        let before = run(&mut env, &w2, &["log", "--no-graph", "--ignore-working-copy", "-r", "@", "-T", t])?.out;
-        let (id, imm) = before.trim().split_once(' ').ok_or("bad log")?;
-        if imm != "true" {
-            return Err(format!("w2@ not immutable after tagging: {before}"));
+        Ok(w2)
+    })();
+    let mut repo = match w2dir {
+        Ok(w2) => Repo { env, dir: w2, ids: HashMap::new(), next_id: 1, base_expr: EXPR.to_string(), kind: 0 },
+        Err(e) => {
+            let mut rec = Rec::new(None, String::new());
+            rec.notes.push(format!("two-workspace scenario could not be set up: {e}"));
+            rec.tallies.push(("two-workspace", "setup failed".into()));
+            return vec![rec];
         }
-        let id = id.to_string();
-        let c = env.jj(&w2, &["commit", "-m", "y"]);
-        let vis = run(&mut env, &w2, &["log", "--no-graph", "--ignore-working-copy", "-r", "all()", "-T", "commit_id ++ \"\\n\""])?.out;
-        if c.code != 0 && c.err.contains("is immutable") {
+    };
+    let steps: [(&[&str], bool, &str); 2] =
+        [(&["commit", "-m", "y"], false, "jj commit"), (&["commit", "-m", "z", "--ignore-immutable"], true, "jj commit --ignore-immutable")];
+    let mut state = match repo.read_state(EXPR) {
+        Ok(s) => s,
+        Err(e) => {
+            let mut rec = Rec::new(None, String::new());
+            rec.notes.push(format!("two-workspace scenario: {e}"));
+            return vec![rec];
+        }
+    };
+    for (args, ign, label) in steps {
+        let Some(wc) = state.wc().cloned() else { break };
+        if !wc.imm {
+            let mut rec = Rec::new(None, String::new());
+            rec.notes.push(format!("two-workspace scenario: w2@ {} is not immutable after `jj tag set v1 -r w2@`", wc.commit));
+            rec.tallies.push(("two-workspace", "setup: w2@ not immutable".into()));
+            recs.push(rec);
+            break;
+        }
+        let heads = sorted_ids(&repo, state.commits.iter().filter(|c| c.head && !c.is_root));
+        let imm_ids = sorted_ids(&repo, state.commits.iter().filter(|c| c.imm));
+        let graph = graph_token(&repo, &state);
+        let wc_id = repo.id(&wc);
+        let dir = repo.dir.clone();
+        let res = repo.env.jj(&dir, args);
+        let after = match repo.read_state(EXPR) {
+            Ok(s) => s,
+            Err(e) => {
+                let mut rec = Rec::new(None, String::new());
+                rec.notes.push(format!("two-workspace scenario: after `{label}`: {e}"));
+                rec.tallies.push(("aborted", "two-workspace: log after the step failed".into()));
+                recs.push(rec);
+                break;
+            }
+        };
+        let mut rw = vec![];
+        let mut ab = vec![];
+        for c in state.commits.iter().filter(|c| !c.is_root) {
+            match after.by_change(&c.change) {
+                None => ab.push(repo.id(c)),
+                Some(n) if n.commit != c.commit => rw.push(repo.id(c)),
+                _ => {}
+            }
+        }
+        rw.sort();
+        ab.sort();
+        let outcome = classify(&res);
+        let imm_tok = format!("imm={}", show_list(&imm_ids));
+        let req = format!("run {graph} {} {wc_id} {} = commit", show_list(&heads), ign as u8);
+        let resp = match outcome {
+            "ok" => format!("{imm_tok} ok rw={} ab={}", show_list(&rw), show_list(&ab)),
+            o if rw.is_empty() && ab.is_empty() => format!("{imm_tok} {o}"),
+            o => format!("{imm_tok} {o}-but-changed rw={} ab={}", show_list(&rw), show_list(&ab)),
+        };
+        let mut rec = Rec::new(Some(req.clone()), resp);
+        rec.tallies.push(("command", "commit".into()));
+        rec.tallies.push(("outcome", outcome.to_string()));
+        rec.tallies.push(("mode", "exact".into()));
+        rec.tallies.push(("config", "default+tags".into()));
+        rec.tallies.push(("wc", "immutable-by-other-workspace".into()));
+        rec.tallies.push(("two-workspace", format!("`{label}` with @ tagged from the other workspace: {outcome}{}", if rw.is_empty() && ab.is_empty() { ", nothing rewritten" } else { ", @ rewritten" })));
+        if outcome == "rejected" || !(rw.is_empty() && ab.is_empty()) {
+            rec.nontrivial = Some(req);
+        }
+        let lost: Vec<&CInfo> = state.commits.iter().filter(|c| c.imm && after.by_commit(&c.commit).is_none()).collect();
+        if ign {
+            rec.tallies.push(("flag", "--ignore-immutable".into()));
+        } else if lost.is_empty() {
             rec.oracle_ok += 1;
-            rec.tallies.push(("two-workspace", "commit rejected".into()));
-        } else if vis.lines().any(|l| l == id) {
-            rec.oracle_ok += 1;
-            rec.tallies.push(("two-workspace", "immutable commit kept".into()));
+            // nothing else may have moved either: same immutable set, same `@`
+            let before: BTreeSet<&str> = state.commits.iter().filter(|c| c.imm).map(|c| c.commit.as_str()).collect();
+            let now: BTreeSet<&str> = after.commits.iter().filter(|c| c.imm).map(|c| c.commit.as_str()).collect();
+            if before == now {
+                rec.oracle_ok += 1;
+            } else {
+                rec.fails.push(("immutable-set-changed:commit".into(), format!("two-workspace scenario: immutable() before {before:?} after {now:?}")));
+            }
         } else {
-            rec.tallies.push(("two-workspace", "immutable commit rewritten by `jj commit`".into()));
             rec.fails.push((
                 "unguarded-wc:commit".into(),
-                format!("default config, workspace w2: `jj tag set v1 -r w2@` (run in the other workspace) made w2's @ {} immutable; `jj commit -m y` in w2 exit {} rewrote it (no longer visible)", &id[..12], c.code),
+                format!(
+                    "default config, workspace w2: `jj tag set v1 -r w2@` (run in the other workspace) made w2's @ {} immutable; `jj commit -m y` in w2 exit {} rewrote it (immutable commits no longer visible: {:?})",
+                    &wc.commit[..12.min(wc.commit.len())], res.code, lost.iter().map(|c| c.commit.chars().take(12).collect::<String>()).collect::<Vec<_>>()
+                ),
             ));
         }
-        Ok(())
-    })();
-    if let Err(e) = r {
-        rec.notes.push(format!("two-workspace scenario could not be set up: {e}"));
+        let stop = !rec.fails.is_empty() || outcome != "rejected";
+        recs.push(rec);
+        if stop {
+            break; // step 2 needs the untouched state; after a successful commit `@` has moved on
+        }
+        state = after;
     }
-    rec
+    recs
 }
 
 pub fn run(cfg: &Cfg, out: &mut Out) {
@@ -718,7 +806,7 @@ pub fn run(cfg: &Cfg, out: &mut Out) {
     let steps = 10;
     let seed = cfg.seed;
     let t0 = std::time::Instant::now();
-    let mut all: Vec<Vec<Rec>> = vec![vec![two_workspace_scenario(seed)]];
+    let mut all: Vec<Vec<Rec>> = vec![two_workspace_scenario(seed)];
     all.extend(par_map(repos, |i| match guard(|| run_repo(seed, i as u64, steps, 4200)) {
         Ok(v) => v,
         Err(e) => {
